@@ -161,8 +161,11 @@ func refEscape(esc []byte, q byte) (bool, []byte) {
 // Harness_C03escape: arg = quoting*16 + escape length; the escape body is symbolic.
 func Harness_C03escape(arg int) {
 	qi, n := arg/16, arg%16
+	if qi >= 2 {
+		c03ClassEscape(qi-2, n)
+		return
+	}
 	quotes := []byte{'"', '\''}
-	symAssume(qi < 2)
 	q := quotes[qi]
 	esc := symBytes("e", n)
 	ok, want := refEscape(esc, q)
@@ -184,6 +187,42 @@ func Harness_C03escape(arg int) {
 			symDebug("got", []byte(lit.Val))
 			symDebug("want", want)
 			symAssert(symEqual(lit.Val, string(want)), "C03: escape sequence decoded to a different value")
+		}
+	}
+	symReach("end")
+}
+
+// c03ClassEscape: the same escapes inside a class (\] instead of the quotes),
+// alone (form 0) or as the low end of a range (form 1). An escape denotes one
+// character: \xHH and \ooo the character with that code.
+func c03ClassEscape(form, n int) {
+	esc := symBytes("e", n)
+	ok, want := refEscape(esc, ']')
+	symAssume(ok)
+	var r rune
+	if len(esc) == 3 {
+		r = rune(want[0])
+	} else {
+		r, _ = utf8.DecodeRune(want)
+	}
+	text := []byte("A <- [\\")
+	text = append(text, esc...)
+	if form == 1 {
+		text = append(text, '-', '~')
+	}
+	text = append(text, ']', '\n')
+	g, err := Parse("", text)
+	symAssert(err == nil, "C03: a documented escape sequence inside a class was rejected")
+	if err == nil {
+		cc, isCls := g.(*ast.Grammar).Rules[0].Expr.(*ast.CharClassMatcher)
+		symAssert(isCls, "C03: class text did not yield a class matcher")
+		if isCls {
+			symDebug("got", cc.Chars, cc.Ranges, "want", r)
+			if form == 0 {
+				symAssert(len(cc.Chars) == 1 && len(cc.Ranges) == 0 && cc.Chars[0] == r, "C03: escape inside a class denotes a different character")
+			} else {
+				symAssert(len(cc.Chars) == 0 && len(cc.Ranges) == 2 && cc.Ranges[0] == r && cc.Ranges[1] == '~', "C03: escape as range bound denotes a different character")
+			}
 		}
 	}
 	symReach("end")
